@@ -1488,3 +1488,57 @@ mod tests {
         Ok(())
     }
 }
+
+/// Verification hooks (add-only, no logic of their own): read access to the private search state and
+/// a setter for an edge's estimation.
+#[cfg(gmsol_verif)]
+pub mod verif_hooks {
+    use super::*;
+
+    /// Set the estimated `ln_exchange_rate` of the edge of `market_token` (from the long or the short side).
+    pub fn set_edge_ln_exchange_rate(
+        g: &mut MarketGraph,
+        market_token: &Pubkey,
+        from_long_side: bool,
+        ln_exchange_rate: Option<Decimal>,
+    ) -> bool {
+        let Some(state) = g.markets.get(market_token) else {
+            return false;
+        };
+        let ix = if from_long_side { state.long_edge } else { state.short_edge };
+        let Some(edge) = g.graph.edge_weight_mut(ix) else {
+            return false;
+        };
+        edge.estimated = ln_exchange_rate.map(|ln_exchange_rate| SwapEstimation { ln_exchange_rate });
+        true
+    }
+
+    /// Node index of a collateral token.
+    pub fn node_index(g: &MarketGraph, token: &Pubkey) -> Option<usize> {
+        g.collateral_tokens.get(token).map(|s| g.to_index(s.ix))
+    }
+
+    /// Node bound of the graph.
+    pub fn node_bound(g: &MarketGraph) -> usize {
+        g.graph.node_bound()
+    }
+
+    /// The distances of a search result.
+    pub fn distances(p: &BestSwapPaths<'_>) -> Vec<Option<Decimal>> {
+        p.distances.clone()
+    }
+
+    /// The predecessors of a search result as (node index, market token).
+    pub fn predecessors(p: &BestSwapPaths<'_>) -> Vec<Option<(usize, Pubkey)>> {
+        p.predecessors
+            .iter()
+            .map(|x| x.map(|(ix, m)| (p.graph.to_index(ix), m)))
+            .collect()
+    }
+
+    /// `bellman_ford` / `dfs` called directly.
+    pub fn bellman_ford(g: &MarketGraph, source: &Pubkey) -> crate::Result<(Vec<Option<Decimal>>, Vec<Option<(usize, Pubkey)>>)> {
+        let (d, p) = g.bellman_ford(source)?;
+        Ok((d, p.iter().map(|x| x.map(|(ix, m)| (g.to_index(ix), m))).collect()))
+    }
+}
